@@ -23,6 +23,7 @@ func init() {
 
 func runC02(p *eng.Prog, r *eng.Report, tier string) {
 	c := &cx{p, r, tier}
+	r18ConfigLookedUpForTheStep(c, "C02.25")
 	// C02.23 (= C11.6, imported): JID.Domain yields the domainpart alone (the default TLS ServerName is the
 	// session's own Domain(): a fast path that keeps the resourcepart puts "domain/resource" into the ClientHello)
 	importRules(c, "C11", []string{"C11.6"}, "C02.23")
